@@ -21,11 +21,12 @@ structure CfgSame (c1 c2 : Cfg) : Prop where
   labels : ∀ p, c1.labels.contains p = c2.labels.contains p
   accepts : ∀ p, p = 4 ∨ p = 38 ∨ p = 48 ∨ p = 58 → ∀ n, c1.accepts p n = c2.accepts p n
   ulSubs : ∀ k, c1.ulSubs.contains k = c2.ulSubs.contains k
+  nums : ∀ p, p = 38 ∨ p = 48 ∨ p = 58 → c1.nums p = c2.nums p
 
 theorem extColour_same (c1 c2 : Cfg) (h : CfgSame c1 c2) (p : Nat) (hp : p = 38 ∨ p = 48 ∨ p = 58) (cur : Param) (rest : List Param) :
     extColour c1 p cur rest = extColour c2 p cur rest := by
   unfold extColour
-  simp only [h.accepts p (Or.inr hp)]
+  simp only [h.accepts p (Or.inr hp), h.nums p hp]
 
 theorem ulCase_same (c1 c2 : Cfg) (h : CfgSame c1 c2) (cur : Param) (s : Style) : ulCase c1 cur s = ulCase c2 cur s := by
   unfold ulCase
@@ -76,7 +77,8 @@ def rowSame (r1 r2 : Option (Nat × List Nat × Bool)) : Bool :=
 
 def cfgSameB (c1 c2 : Cfg) : Bool :=
   sameSet c1.labels c2.labels && sameSet c1.ulSubs c2.ulSubs &&
-  [4, 38, 48, 58].all fun p => rowSame (c1.arities.find? (fun a => a.1 == p)) (c2.arities.find? (fun a => a.1 == p))
+  ([4, 38, 48, 58].all fun p => rowSame (c1.arities.find? (fun a => a.1 == p)) (c2.arities.find? (fun a => a.1 == p))) &&
+  [38, 48, 58].all fun p => decide (c1.nums p = c2.nums p)
 
 /-- The two `switch len(…)` tables are the same: same first parameters, and per first parameter the same set of accepted
     lengths (order of the `case` clauses irrelevant), same "or more" flag. -/
@@ -115,12 +117,15 @@ theorem accepts_of_rowSame (c1 c2 : Cfg) (p : Nat)
 theorem cfgSame_of_B (c1 c2 : Cfg) (h : cfgSameB c1 c2 = true) : CfgSame c1 c2 := by
   unfold cfgSameB at h
   simp only [Bool.and_eq_true, List.all_eq_true] at h
-  obtain ⟨⟨hl, hu⟩, hr⟩ := h
-  refine ⟨sameSet_contains _ _ hl, ?_, sameSet_contains _ _ hu⟩
-  intro p hp n
-  apply accepts_of_rowSame
-  apply hr
-  rcases hp with rfl | rfl | rfl | rfl <;> simp
+  obtain ⟨⟨⟨hl, hu⟩, hr⟩, hnum⟩ := h
+  refine ⟨sameSet_contains _ _ hl, ?_, sameSet_contains _ _ hu, ?_⟩
+  · intro p hp n
+    apply accepts_of_rowSame
+    apply hr
+    rcases hp with rfl | rfl | rfl | rfl <;> simp
+  · intro p hp
+    have := hnum p (by rcases hp with rfl | rfl | rfl <;> simp)
+    simpa using this
 
 /-! ### `NewStyledString` against the `[][]int` consumers: a class of lists on which every step is the same -/
 
@@ -134,14 +139,14 @@ theorem legacyOK_some (rest : Seq) (k : Nat) (h : legacyOK rest = some k) :
 
 abbrev tk (q : Seq) : List (List SubTok) := q.map (·.map tokN)
 
-theorem ext_agree_1 (ci cs : Cfg) (p : Nat) (rest : Seq) (k : Nat) (h : extStep ci cs p [] rest = some k) :
+theorem ext_agree_1 (ci cs : Cfg) (p : Nat) (rest : Seq) (k : Nat) (hn : ci.nums p = {}) (h : extStepCore ci cs p [] rest = some k) :
     ∃ oc, ssColour cs p [tokN p] (tk rest) = .ok (oc, k) ∧
       (extColour ci p [p] rest = .ok (oc, .cont k) ∨ (extColour ci p [p] rest = .ok (oc, .stop) ∧ rest = [])) := by
-  simp only [extStep, List.length_nil, Nat.zero_add, if_true] at h
+  simp only [extStepCore, List.length_nil, Nat.zero_add, if_true] at h
   cases hai : ci.accepts p 1 <;> cases has : cs.accepts p 1 <;> simp only [hai, has, Bool.and_self, Bool.and_false, Bool.and_true,
     Bool.false_eq_true, if_false, if_true, Bool.not_false, Bool.not_true] at h
   · cases h
-    exact ⟨none, by simp [ssColour, has], Or.inl (by simp [extColour, hai])⟩
+    exact ⟨none, by simp [ssColour, has], Or.inl (by simp [extColour, hai, hn])⟩
   · cases h
   · cases h
   · cases hl : legacyOK rest with
@@ -150,10 +155,10 @@ theorem ext_agree_1 (ci cs : Cfg) (p : Nat) (rest : Seq) (k : Nat) (h : extStep 
       cases h
       rcases legacyOK_some rest k hl with ⟨v, tl, rfl, rfl⟩ | ⟨r, g, b, tl, rfl, rfl⟩
       · exact ⟨some (indexColor (u8 v)), by simp [ssColour, has, ssLegacy, rawIs, rawAtoi, tokN, tk, u8i_nat],
-          Or.inl (by simp [extColour, hai, idx2, idx])⟩
+          Or.inl (by simp [extColour, hai, idx2, idx, hn])⟩
       · exact ⟨some (rgbColor (u8 r) (u8 g) (u8 b)), by simp [ssColour, has, ssLegacy, rawIs, rawAtoi, tokN, tk, u8i_nat],
           Or.inl (by
-            simp [extColour, hai, idx2, idx]
+            simp [extColour, hai, idx2, idx, hn]
             rw [if_neg (by omega), if_neg (by omega)])⟩
     | none =>
       rw [hl] at h
@@ -163,7 +168,7 @@ theorem ext_agree_1 (ci cs : Cfg) (p : Nat) (rest : Seq) (k : Nat) (h : extStep 
         rename_i he
         have : rest = [] := by cases rest <;> simp_all
         subst this
-        exact ⟨none, by simp [ssColour, has, ssLegacy, tk], Or.inr ⟨by simp [extColour, hai], rfl⟩⟩
+        exact ⟨none, by simp [ssColour, has, ssLegacy, tk], Or.inr ⟨by simp [extColour, hai, hn], rfl⟩⟩
       · cases h
 
 theorem extColour_other (cfg : Cfg) (p : Nat) (cur : Param) (rest : Seq)
@@ -180,78 +185,88 @@ theorem ssColour_other (cfg : Cfg) (p : Nat) (subs : List SubTok) (rest : List (
   simp only [if_neg h1, if_neg h3, if_neg h5]
   split <;> rfl
 
-theorem ext_agree_3 (ci cs : Cfg) (p a b : Nat) (rest : Seq) (k : Nat) (h : extStep ci cs p [a, b] rest = some k) :
+theorem ext_agree_3 (ci cs : Cfg) (p a b : Nat) (rest : Seq) (k : Nat) (hn : ci.nums p = {}) (h : extStepCore ci cs p [a, b] rest = some k) :
     ∃ oc, ssColour cs p [tokN p, tokN a, tokN b] (tk rest) = .ok (oc, k) ∧ extColour ci p [p, a, b] rest = .ok (oc, .cont k) := by
-  simp only [extStep, List.length_cons, List.length_nil, Nat.zero_add, Nat.reduceAdd, Nat.reduceEqDiff, if_false, if_true,
+  simp only [extStepCore, List.length_cons, List.length_nil, Nat.zero_add, Nat.reduceAdd, Nat.reduceEqDiff, if_false, if_true,
     List.head?_cons, Option.some.injEq] at h
   cases hai : ci.accepts p 3 <;> cases has : cs.accepts p 3 <;> simp only [hai, has, Bool.and_self, Bool.and_false, Bool.and_true,
     Bool.false_eq_true, if_false, if_true, Bool.not_false, Bool.not_true] at h
   · cases h
-    exact ⟨none, by simp [ssColour, has], by simp [extColour, hai]⟩
+    exact ⟨none, by simp [ssColour, has], by simp [extColour, hai, hn]⟩
   · cases h
   · cases h
   · split at h
     · cases h
       rename_i ha
       subst ha
-      exact ⟨some (indexColor (u8 b)), by simp [ssColour, has, idx, tokN, u8i_nat], by simp [extColour, hai, idx]⟩
+      exact ⟨some (indexColor (u8 b)), by simp [ssColour, has, idx, tokN, u8i_nat], by simp [extColour, hai, idx, hn]⟩
     · cases h
 
-theorem ext_agree_5 (ci cs : Cfg) (p a b c d : Nat) (rest : Seq) (k : Nat) (h : extStep ci cs p [a, b, c, d] rest = some k) :
+theorem ext_agree_5 (ci cs : Cfg) (p a b c d : Nat) (rest : Seq) (k : Nat) (hn : ci.nums p = {}) (h : extStepCore ci cs p [a, b, c, d] rest = some k) :
     ∃ oc, ssColour cs p [tokN p, tokN a, tokN b, tokN c, tokN d] (tk rest) = .ok (oc, k) ∧
       extColour ci p [p, a, b, c, d] rest = .ok (oc, .cont k) := by
-  simp only [extStep, List.length_cons, List.length_nil, Nat.zero_add, Nat.reduceAdd, Nat.reduceEqDiff, if_false, if_true,
+  simp only [extStepCore, List.length_cons, List.length_nil, Nat.zero_add, Nat.reduceAdd, Nat.reduceEqDiff, if_false, if_true,
     List.head?_cons, Option.some.injEq] at h
   cases hai : ci.accepts p 5 <;> cases has : cs.accepts p 5 <;> simp only [hai, has, Bool.and_self, Bool.and_false, Bool.and_true,
     Bool.false_eq_true, if_false, if_true, Bool.not_false, Bool.not_true] at h
   · cases h
-    exact ⟨none, by simp [ssColour, has], by simp [extColour, hai]⟩
+    exact ⟨none, by simp [ssColour, has], by simp [extColour, hai, hn]⟩
   · cases h
   · cases h
   · split at h
     · cases h
       rename_i ha
       subst ha
-      exact ⟨some (rgbColor (u8 b) (u8 c) (u8 d)), by simp [ssColour, has, idx, tokN, u8i_nat], by simp [extColour, hai, idx]⟩
+      exact ⟨some (rgbColor (u8 b) (u8 c) (u8 d)), by simp [ssColour, has, idx, tokN, u8i_nat], by simp [extColour, hai, idx, hn]⟩
     · cases h
 
-theorem ext_agree_6 (ci cs : Cfg) (p a b c d e : Nat) (rest : Seq) (k : Nat) (h : extStep ci cs p [a, b, c, d, e] rest = some k) :
+theorem ext_agree_6 (ci cs : Cfg) (p a b c d e : Nat) (rest : Seq) (k : Nat) (hn : ci.nums p = {}) (h : extStepCore ci cs p [a, b, c, d, e] rest = some k) :
     ∃ oc, ssColour cs p [tokN p, tokN a, tokN b, tokN c, tokN d, tokN e] (tk rest) = .ok (oc, k) ∧
       extColour ci p [p, a, b, c, d, e] rest = .ok (oc, .cont k) := by
-  simp only [extStep, List.length_cons, List.length_nil, Nat.zero_add, Nat.reduceAdd, Nat.reduceEqDiff, if_false, if_true] at h
+  simp only [extStepCore, List.length_cons, List.length_nil, Nat.zero_add, Nat.reduceAdd, Nat.reduceEqDiff, if_false, if_true] at h
   split at h
   · cases h
     rename_i hai
     refine ⟨none, ssColour_other _ _ _ _ (by simp) (by simp) (by simp), ?_⟩
     simp only [Bool.not_eq_true'] at hai
-    simp [extColour, hai]
+    simp [extColour, hai, hn]
   · cases h
+
+theorem extStep_some (ci cs : Cfg) (p : Nat) (subs : List Nat) (rest : Seq) (k : Nat) (h : extStep ci cs p subs rest = some k) :
+    ci.nums p = {} ∧ extStepCore ci cs p subs rest = some k := by
+  unfold extStep at h
+  split at h
+  · cases h
+  · rename_i hne
+    refine ⟨?_, h⟩
+    simpa using hne
 
 theorem ext_agree (ci cs : Cfg) (p : Nat) (subs : List Nat) (rest : Seq) (k : Nat) (h : extStep ci cs p subs rest = some k) :
     ∃ oc, ssColour cs p ((p :: subs).map tokN) (tk rest) = .ok (oc, k) ∧
       (extColour ci p (p :: subs) rest = .ok (oc, .cont k) ∨ (extColour ci p (p :: subs) rest = .ok (oc, .stop) ∧ rest = [])) := by
+  obtain ⟨hn, h⟩ := extStep_some ci cs p subs rest k h
   match subs, h with
-  | [], h => exact ext_agree_1 ci cs p rest k h
+  | [], h => exact ext_agree_1 ci cs p rest k hn h
   | [a, b], h =>
-    obtain ⟨oc, h1, h2⟩ := ext_agree_3 ci cs p a b rest k h
+    obtain ⟨oc, h1, h2⟩ := ext_agree_3 ci cs p a b rest k hn h
     exact ⟨oc, h1, Or.inl h2⟩
   | [a, b, c, d], h =>
-    obtain ⟨oc, h1, h2⟩ := ext_agree_5 ci cs p a b c d rest k h
+    obtain ⟨oc, h1, h2⟩ := ext_agree_5 ci cs p a b c d rest k hn h
     exact ⟨oc, h1, Or.inl h2⟩
   | [a, b, c, d, e], h =>
-    obtain ⟨oc, h1, h2⟩ := ext_agree_6 ci cs p a b c d e rest k h
+    obtain ⟨oc, h1, h2⟩ := ext_agree_6 ci cs p a b c d e rest k hn h
     exact ⟨oc, h1, Or.inl h2⟩
   | [a], h =>
-    simp only [extStep, List.length_cons, List.length_nil, Nat.zero_add, Nat.reduceAdd, Nat.reduceEqDiff, if_false] at h
+    simp only [extStepCore, List.length_cons, List.length_nil, Nat.zero_add, Nat.reduceAdd, Nat.reduceEqDiff, if_false] at h
     cases h
     exact ⟨none, ssColour_other _ _ _ _ (by simp) (by simp) (by simp), Or.inl (extColour_other _ _ _ _ (by simp) (by simp) (by simp) (by simp))⟩
   | [a, b, c], h =>
-    simp only [extStep, List.length_cons, List.length_nil, Nat.zero_add, Nat.reduceAdd, Nat.reduceEqDiff, if_false] at h
+    simp only [extStepCore, List.length_cons, List.length_nil, Nat.zero_add, Nat.reduceAdd, Nat.reduceEqDiff, if_false] at h
     cases h
     exact ⟨none, ssColour_other _ _ _ _ (by simp) (by simp) (by simp), Or.inl (extColour_other _ _ _ _ (by simp) (by simp) (by simp) (by simp))⟩
   | a :: b :: c :: d :: e :: f :: tl, h =>
     have hk : k = 0 := by
-      unfold extStep at h
+      unfold extStepCore at h
       simp only [List.length_cons] at h
       rw [if_neg (by omega), if_neg (by omega), if_neg (by omega), if_neg (by omega)] at h
       cases h; rfl
